@@ -84,6 +84,8 @@ def _post_stage1(flat):
         fail = z3.And(z3.Not(ctx["d_cancelled"]), z3.Not(Val.is_none(ctx["d_exc"])))
         cl.append(("no exception escapes the done-callback", "EX", not isinstance(out, Raise), ["C18", "C13"]))
         cl.append(("fn / error_fn called at most once in total", "PC", len(calls) <= 1, ["C13"]))
+        cl.append(("SP: a delegate cancelled by someone else ends the derived future too (cancelled, never left pending)", "SP",
+                   z3.Implies(ctx["d_cancelled"], st.cancelled(sid)), ["C03"]))
         cl.append(("delegate reference dropped (self._delegate is not the finished delegate)", "PC",
                    st.get("_delegate", sid) != ctx["delegate"].t, ["C12"]))
         if len(calls) == 0:
@@ -151,6 +153,8 @@ def _post_stage2(engine, st, ctx, out):
     calls = user_calls(st)
     cl = [("no exception escapes the done-callback", "EX", not isinstance(out, Raise), ["C18", "C13"]),
           ("flat_map stage 2 calls neither fn nor error_fn", "PC", len(calls) == 0, ["C13"])]
+    cl.append(("SP: a delegate cancelled by someone else ends the derived future too (cancelled, never left pending)", "SP",
+               z3.Implies(ctx["d_cancelled"], st.cancelled(sid)), ["C03"]))
     nc = z3.Not(ctx["d_cancelled"])
     mirror = z3.Or(st.cancelled(sid), z3.And(st.finished(sid), st.fresult(sid) == ctx["d_res"], st.fexc(sid) == ctx["d_exc"]))
     if len(calls) == 0:
@@ -187,6 +191,7 @@ _mk("FlatMapFuture", "stage 2 (flattened)", True, flattened=True, stage2=True, m
 
 
 REPLAYS = [
+    ("C03", "SP: a delegate cancelled by someone else", "replay/c03_delegate_cancelled_outside.py"),
     ("C13", "flat_map stage 2 calls neither fn nor error_fn", "replay/c13_flatmap_error_fn_after_flatten.py"),
     ("C13", "once flattened, error_fn no longer applies", "replay/c13_flatmap_error_fn_after_flatten.py"),
 ]
